@@ -22,8 +22,8 @@ type stepObs struct {
 }
 
 // runSeq executes a sequence on a fresh real model.
-func runSeq(seq []op) []stepObs {
-	w := newWorld()
+func runSeq(cfg config, seq []op) []stepObs {
+	w := newWorldCfg(cfg)
 	obs := make([]stepObs, 0, len(seq))
 	for _, o := range seq {
 		before := w.snapshot()
@@ -65,11 +65,11 @@ func checkInvariants(m *lib.Monitor, where string, s snap, changed bool, input a
 
 // monitorSeq evaluates the property's statements on the real observations with its own oracle
 // (plain Go bookkeeping, no Lean model involved).
-func monitorSeq(m *lib.Monitor, seq []op, obs []stepObs) {
+func monitorSeq(m *lib.Monitor, cfg config, seq []op, obs []stepObs) {
 	changed := false
 	for i, st := range obs {
 		o := st.Op
-		input := map[string]any{"ops": seq[:i+1]}
+		input := map[string]any{"init": cfg, "ops": seq[:i+1]}
 		k := o.Kind
 		if st.Panic {
 			documented := (k == "create" && o.Mode.ID != "") || (k == "add" && o.Mode.ID == "")
@@ -80,12 +80,16 @@ func monitorSeq(m *lib.Monitor, seq []op, obs []stepObs) {
 			continue
 		}
 		ok := st.Err == nil
+		changedBefore := changed
 		if ok && (k == "setactive" || k == "change" || k == "clear" || k == "s.change" || k == "s.clear") {
 			changed = true
 		}
 		// I1, I3 after every step; reported at the step that breaks them (the signature names that operation)
-		if len(st.Before.normals()) <= 1 || (changed && !st.After.has(st.After.Active.Id) && (i == 0 || st.Before.has(st.Before.Active.Id))) {
-			checkInvariants(m, k, st.After, changed, input)
+		if ns := st.After.normals(); len(ns) > 1 && len(st.Before.normals()) <= 1 {
+			m.Violate("C19/I1/more-than-one-normal-mode/"+k, "more than one mode is marked normal", input, "at most 1 normal mode", fmt.Sprintf("%d normal modes: %q", len(ns), ns))
+		}
+		if changed && !st.After.has(st.After.Active.Id) && !(changedBefore && !st.Before.has(st.Before.Active.Id)) {
+			m.Violate("C19/I3/active-mode-not-in-modes/"+k, "the active mode (once changed) does not refer to a mode that exists", input, "active id in modes", fmt.Sprintf("active id %q not in modes", st.After.Active.Id))
 		}
 		// I2: the active mode is never deleted
 		if k == "delete" || k == "s.delete" {
